@@ -26,6 +26,7 @@ import (
 	"strconv"
 	"strings"
 	"sync"
+	"sync/atomic"
 	"time"
 
 	"github.com/bitcoin-sv/block-headers-service/config"
@@ -173,10 +174,11 @@ func (s *scripted) Call(headers map[string]string, method string, u string, body
 // ---- httptest server for the production client
 
 type liveTarget struct {
-	srv   *httptest.Server
-	mu    sync.Mutex
-	out   map[string]string // keyed by path
-	calls []call
+	slow200 atomic.Int64
+	srv     *httptest.Server
+	mu      sync.Mutex
+	out     map[string]string // keyed by path
+	calls   []call
 }
 
 func newLiveTarget() *liveTarget {
@@ -236,6 +238,23 @@ func (t *liveTarget) handle(w http.ResponseWriter, r *http.Request) {
 	switch o {
 	case o200:
 		w.WriteHeader(200)
+		if t.slow200.Add(1)%3 == 0 {
+			// a receiver whose answer does not arrive in one piece: headers first, then a body of a few kilobytes in
+			// three flushed parts. It is a 200 all the same.
+			fl, _ := w.(http.Flusher)
+			if fl != nil {
+				fl.Flush()
+			}
+			part := bytes.Repeat([]byte("ok "), 2048)
+			for i := 0; i < 3; i++ {
+				time.Sleep(300 * time.Microsecond)
+				_, _ = w.Write(part)
+				if fl != nil {
+					fl.Flush()
+				}
+			}
+			return
+		}
 		_, _ = w.Write([]byte("ok"))
 	case o201:
 		w.WriteHeader(201)
